@@ -68,10 +68,10 @@ def _new_recipe(rng, known_shapes):
     }
 
 
-def _gen_call(rng, meta):
+def _gen_call(rng, meta, force_sel=None):
     recipe = meta["recipe"]
     has_site = any(k == "site" for k, _ in recipe["dims"])
-    if meta["kind"] == "ds" and has_site and recipe.get("nd", 0) >= 0 and rng.random() < 0.2:
+    if meta["kind"] == "ds" and has_site and recipe.get("nd", 0) >= 0 and (force_sel or rng.random() < 0.25):
         lon0, lat0 = recipe.get("lon0", 150.0), recipe.get("lat0", -30.0)
         n = rng.randint(1, 3)
         conv = rng.choice(["same", "same", "other"])
@@ -79,7 +79,7 @@ def _gen_call(rng, meta):
         if conv == "other":
             lons = [(x - 360 if x > 180 else (x + 360 if x < 0 else x)) for x in lons]
         lats = [round(lat0 + rng.uniform(0, 5), 2) for _ in range(n)]
-        method = rng.choice(["idw", "nearest", "bbox", "nearest", None, None])
+        method = rng.choice(["idw", "nearest", "bbox", "nearest", None, None]) if force_sel is None else None
         kw = {"method": method, "tolerance": rng.choice([2.0, 10.0, 10.0])}
         if method == "nearest" and rng.random() < 0.3:
             kw["unique"] = True
@@ -93,7 +93,7 @@ def _gen_call(rng, meta):
             lats = [float(slat[i]) for i in pick]
             if rng.random() < 0.25:
                 lats[-1] = round(lats[-1] + 0.5, 3)
-            extra = rng.choice(["none", "none", "unique", "missing", "exact"])
+            extra = rng.choice(["none", "none", "unique", "missing", "exact"]) if force_sel != "plain" else "none"
             if extra == "unique":
                 kw["unique"] = True
             elif extra == "missing":
@@ -122,7 +122,7 @@ def _gen_bad(rng, meta):
 
 def _gen_edit(rng, meta):
     if meta["kind"] == "ds":
-        kinds = ["efth_scale", "efth_scale", "efth_replace", "dir_assign", "freq_assign", "attrs_set", "values_poke"]
+        kinds = ["efth_scale", "efth_scale", "efth_replace", "dir_assign", "freq_assign", "attrs_set", "values_poke", "add_var"]
     else:
         kinds = ["dir_assign", "dir_assign", "freq_assign", "values_poke", "attrs_set"]
     if meta["recipe"].get("nd", 0) == 0:
@@ -141,6 +141,8 @@ def _gen_edit(rng, meta):
         e["f"] = rng.choice([1.1, 0.9, 2.0])
     elif k == "values_poke":
         e["f"] = rng.choice([3.0, 0.5])
+    elif k == "add_var":
+        e["name"] = rng.choice(["crsd", "hs", "tm01", "crsd"])
     return e
 
 
@@ -187,6 +189,13 @@ def gen_plan(rng, tier="quick", prop="C18"):
                              "p_dup": rng.choice([0, 0.3, 0.6]), "p_stall": 0, "chunksize": 1, "optimize_graph": True}
             steps.append(st)
             r = meta["recipe"]
+            c = st["call"]
+            if c["m"] == "sel" and c["kw"].get("method") is None and len(c["kw"]) > 2 and rng.random() < 0.6:
+                # greybox bias: a selection with non-default keywords is followed by a plain one of the same kind,
+                # possibly on another object, so that anything the first call left behind becomes observable
+                site_slots = [s for s, m in metas.items() if m["kind"] == "ds" and any(k == "site" for k, _ in m["recipe"]["dims"])]
+                s2 = rng.choice(site_slots)
+                steps.append({"op": "call", "slot": s2, "call": _gen_call(rng, metas[s2], force_sel="plain"), "both": False})
             if st["call"]["m"] in O.PARTITIONS and r["nd"] >= 2:
                 known_shapes.append((r["nf"], r["nd"]))
         elif kind == "bad":
@@ -390,7 +399,12 @@ def call_args(store, call):
     args = {}
     m = call["m"]
     if m == "stats":
-        args["stats"] = store.get("list", list(call["stats"]))
+        if call.get("stats_kw"):
+            args["stats"] = store.get("dict", {n: dict(call["stats_kw"].get(n, {})) for n in call["stats"]})
+        else:
+            args["stats"] = store.get("list", list(call["stats"]))
+        if "names" in call:
+            args["names"] = store.get("list", list(call["names"]))
     elif m == "bbox":
         args["bboxes"] = store.get("list", [dict(b) for b in call["bboxes"]])
     elif m == "sel":
@@ -465,6 +479,9 @@ def apply_edit(slot, e):
         obj.attrs["verif_note"] = "edited"
         if slot.kind == "ds":
             obj["efth"].attrs["units"] = "m2 s deg-1 (edited)"
+    elif k == "add_var":
+        # a statistic stored next to the spectra under its own name (what users do before writing files)
+        obj[e["name"]] = getattr(obj["efth"].spec, e["name"])()
     elif k == "values_poke":
         target = obj["efth"] if slot.kind == "ds" else obj
         target.values[...] = target.values * np.asarray(e["f"], dtype=target.dtype)
